@@ -131,7 +131,7 @@ def ser_stream(st, transform=None):
 class Revision:
     def __init__(self, objects, form="table", objstm=(), free=(), eol=b"\n", root=None, info=None,
                  trailer_extra=None, gens=None, xref_w=(1, 4, 2), split_index=False, objstm_id=None, xref_id=None,
-                 pad_before=b"", omit_index=False, trailer_style=0):
+                 pad_before=b"", omit_index=False, trailer_style=0, xref_pack="flate", objstm_pack="flate"):
         self.objects = dict(objects)          # objid -> value
         self.form = form                      # 'table' | 'stream' | 'hybrid'
         self.objstm = list(objstm)            # objids stored in this revision's object stream (not for 'table')
@@ -147,6 +147,8 @@ class Revision:
         self.xref_id = xref_id
         self.pad_before = pad_before
         self.trailer_style = trailer_style    # table: 0 `trailer` EOL dict; 1 `trailer <<...>>` on one line; 2 `trailer <<` EOL entries EOL `>>`
+        self.xref_pack = xref_pack            # xref stream payload: 'flate' | 'png' (Flate + /Predictor 12, as most writers do) | 'none'
+        self.objstm_pack = objstm_pack        # object stream payload: 'flate' | 'none' | 'hex' (ASCIIHex)
         self.omit_index = omit_index          # xref stream: leave /Index out when it equals the default [0 Size]
 
 
@@ -202,8 +204,13 @@ def build(revisions, header=b"%PDF-1.7\n%\xe2\xe3\xcf\xd3\n", transform_for=None
                 pos += len(b) + 1
             hd = b" ".join(head) + b"\n"
             payload = hd + b"\n".join(bodies) + b"\n"
-            st = Stream({"Type": Name("ObjStm"), "N": len(packed), "First": len(hd), "Filter": Name("FlateDecode")},
-                        zlib.compress(payload))
+            sd = {"Type": Name("ObjStm"), "N": len(packed), "First": len(hd)}
+            if rev.objstm_pack == "none":
+                st = Stream(sd, payload)
+            elif rev.objstm_pack == "hex":
+                st = Stream(dict(sd, Filter=Name("ASCIIHexDecode")), payload.hex().upper().encode() + b">")
+            else:
+                st = Stream(dict(sd, Filter=Name("FlateDecode")), zlib.compress(payload))
             offs[stm_id] = len(out)
             tr = transform_for(stm_id, 0) if transform_for else None
             out += b"%d 0 obj" % stm_id + E + ser(st, tr) + E + b"endobj" + E
@@ -246,11 +253,26 @@ def build(revisions, header=b"%PDF-1.7\n%\xe2\xe3\xcf\xd3\n", transform_for=None
                     raise ValueError("zero-width type field needs type-1 entries only")
                 rows += a.to_bytes(w[1], "big") + b.to_bytes(w[2], "big")
             d = {"Type": Name("XRef"), "Size": max(maxid, xid) + 1, "W": list(w),
-                 "Index": [x for r in runs for x in r], "Filter": Name("FlateDecode")}
+                 "Index": [x for r in runs for x in r]}
+            rows = bytes(rows)
+            if rev.xref_pack == "png":
+                # PNG `Up` prediction over rows of one entry each, the layout nearly every writer uses
+                cols = sum(w)
+                pred = bytearray()
+                above = bytes(cols)
+                for i in range(0, len(rows), cols):
+                    row = rows[i:i + cols]
+                    pred += b"\x02" + bytes((x - y) & 255 for x, y in zip(row, above))
+                    above = row
+                rows = bytes(pred)
+                d["DecodeParms"] = {"Predictor": 12, "Columns": cols}
+            if rev.xref_pack != "none":
+                d["Filter"] = Name("FlateDecode")
+                rows = zlib.compress(rows)
             if rev.omit_index and d["Index"] == [0, d["Size"]]:
                 del d["Index"]
             d.update(extra)
-            st = Stream(d, zlib.compress(bytes(rows)))
+            st = Stream(d, rows)
             out.extend(b"%d 0 obj" % xid + E + ser(st) + E + b"endobj" + E)
             return pos
 
